@@ -14,7 +14,8 @@ MCNext == /\ steps < Depth
               \/ RemoveSheet(w) /\ L([a |-> "RemoveSheet", w |-> w])
               \/ Clone(w) /\ L([a |-> "Clone", w |-> w])
               \/ Save(w) /\ L([a |-> "Save", w |-> w])
-              \/ Reload(w) /\ L([a |-> "Reload", w |-> w])
+              \/ \E lz \in BOOLEAN : Reload(w, lz) /\ L([a |-> "Reload", w |-> w, lazy |-> lz])
+              \/ \E sh \in {1, 2} : ReadSheet(w, sh) /\ L([a |-> "ReadSheet", w |-> w, sh |-> sh])
 MCSpec == MCInit /\ [][MCNext]_mcvars
 View == <<books, tables, files, last, steps>>
 SaveIsPureMC == [][last'.op = "save" => /\ books' = books
